@@ -3,6 +3,7 @@ package sim
 import (
 	"encoding/json"
 	"os"
+	"strings"
 	"testing"
 )
 
@@ -22,6 +23,11 @@ func TestWorker(t *testing.T) {
 		t.Fatal(err)
 	}
 	InitKeyPool(t, os.Getenv("DSIM_NO_RSA") == "")
+	for _, f := range strings.Fields(os.Getenv("GORACE")) {
+		if strings.HasPrefix(f, "log_path=") {
+			raceLogPath = strings.TrimPrefix(f, "log_path=")
+		}
+	}
 	res := RunJob(t, &job)
 	out, _ := json.Marshal(res)
 	if err := os.WriteFile(job.Out, out, 0o644); err != nil {
